@@ -28,6 +28,8 @@ func init() {
 	harness.RegisterReplay("timecode", harness.Replayer(checkTimeCode))
 	harness.RegisterReplay("fixedsei", harness.Replayer(checkFixed))
 	harness.RegisterReplay("fixedpair", harness.Replayer(checkFixedPair))
+	harness.RegisterReplay("pictimingreuse", harness.Replayer(checkPicTimingReuse))
+	harness.RegisterReplay("timecodereuse", harness.Replayer(checkTimeCodeReuse))
 	harness.RegisterReplay("passthrough", harness.Replayer(checkPass))
 	// development aid: VERIF_C17_NOAVOID=all or a comma-separated list of switch names
 	if v := os.Getenv("VERIF_C17_NOAVOID"); v == "all" {
@@ -689,6 +691,27 @@ func checkPicTiming(c picTimingCase) *harness.Fail {
 	return nil
 }
 
+// checkReuse: a message object that has been sized, serialised and printed once gets the public fields of another
+// message value and is serialised again: payload and Size() must be those of a fresh object with the new values.
+func checkReuse(what string, used, next sei.SEIMessage, fresh sei.SEIMessage) *harness.Fail {
+	_ = used.Size()
+	_ = used.Payload()
+	func() {
+		defer func() { _ = recover() }() // String() of some messages has preconditions judged elsewhere
+		_ = used.String()
+	}()
+	harness.AssignExported(used, next)
+	want := fresh.Payload()
+	got := used.Payload()
+	if !bytes.Equal(got, want) {
+		return harness.Failf("C17|"+what+".Payload|object used before, public fields changed, serialised again: differs from a fresh object", "got %x, a fresh object with the same field values gives %x", got, want)
+	}
+	if used.Size() != uint(len(want)) || fresh.Size() != uint(len(want)) {
+		return harness.Failf("C17|"+what+".Size|object used before, public fields changed: differs from serialised length", "Size %d, fresh %d, payload %d bytes", used.Size(), fresh.Size(), len(want))
+	}
+	return nil
+}
+
 func dump(v interface{}) string {
 	b, _ := json.Marshal(v)
 	return fmt.Sprintf("%+v / %s", v, b)
@@ -720,8 +743,22 @@ func TestPicTiming(t *testing.T) {
 		if harness.Rec.WantSample() && c.HasHRD {
 			harness.Rec.Sample(map[string]interface{}{"kind": "pictiming", "case": c})
 		}
-		harness.Report(rt, "pictiming", c, harness.Guarded(func() *harness.Fail { return checkPicTiming(c) }))
+		if !harness.Report(rt, "pictiming", c, harness.Guarded(func() *harness.Fail { return checkPicTiming(c) })) && rapid.IntRange(0, 2).Draw(rt, "reuse") == 0 {
+			c2 := genPicTiming(rt, true)
+			pc := picTimingReuse{A: c, B: c2}
+			harness.Rec.Class("pictiming-object-reused-with-other-field-values")
+			harness.Report(rt, "pictimingreuse", pc, harness.Guarded(func() *harness.Fail { return checkPicTimingReuse(pc) }))
+		}
 	})
+}
+
+type picTimingReuse struct {
+	A picTimingCase `json:"a"`
+	B picTimingCase `json:"b"`
+}
+
+func checkPicTimingReuse(c picTimingReuse) *harness.Fail {
+	return checkReuse("PicTimingAvcSEI", c.A.message(), c.B.message(), c.B.message())
 }
 
 // ---------------------------------------------------------------------------------------------
@@ -882,8 +919,21 @@ func TestTimeCode(t *testing.T) {
 		if harness.Rec.WantSample() && len(c.Clocks) >= 2 {
 			harness.Rec.Sample(map[string]interface{}{"kind": "timecode", "case": c})
 		}
-		harness.Report(rt, "timecode", c, harness.Guarded(func() *harness.Fail { return checkTimeCode(c) }))
+		if !harness.Report(rt, "timecode", c, harness.Guarded(func() *harness.Fail { return checkTimeCode(c) })) && rapid.IntRange(0, 2).Draw(rt, "reuse") == 0 {
+			pc := timeCodeReuse{A: c, B: genTimeCode(rt)}
+			harness.Rec.Class("timecode-object-reused-with-other-field-values")
+			harness.Report(rt, "timecodereuse", pc, harness.Guarded(func() *harness.Fail { return checkTimeCodeReuse(pc) }))
+		}
 	})
+}
+
+type timeCodeReuse struct {
+	A timeCodeCase `json:"a"`
+	B timeCodeCase `json:"b"`
+}
+
+func checkTimeCodeReuse(c timeCodeReuse) *harness.Fail {
+	return checkReuse("TimeCodeSEI", c.A.message(), c.B.message(), c.B.message())
 }
 
 // ---------------------------------------------------------------------------------------------
@@ -1003,6 +1053,14 @@ func checkFixedPair(c fixedPairCase) *harness.Fail {
 		}
 		if !reflect.DeepEqual(got, x.m) {
 			return harness.Failf("C17|typed SEI|decoded message differs", "message %d of a pair: got %+v want %+v", i, got, x.m)
+		}
+	}
+	if c.A.Kind == c.B.Kind {
+		ua, _ := c.A.message()
+		nb, _ := c.B.message()
+		fb, _ := c.B.message()
+		if f := checkReuse(fmt.Sprintf("typed SEI %d", c.A.Kind), ua, nb, fb); f != nil {
+			return f
 		}
 	}
 	// the same two as a list: write, extract, compare
